@@ -41,10 +41,12 @@ Theorem C09_all_methods_atomic : all_atomic = true.
 Proof. exact all_atomic_now. Qed.
 Print Assumptions C09_all_methods_atomic.
 
+(* the seven modelled methods are all found in the source, each as exactly one critical section (this
+   does not pin the mode: a read-only method under RLock of a sync.RWMutex is accepted) *)
 Example C09_all_methods_atomic_ex :
-  cache_mutex_type = "sync.Mutex"%string /\
-  cache_methods = [("Clear", [Body Excl]); ("Get", [Body Excl]); ("Has", [Body Excl]); ("Len", [Body Excl]);
-                   ("Put", [Body Excl]); ("Remove", [Body Excl]); ("Size", [Body Excl])]%string.
+  forallb (fun n => match one_section (lookup n cache_methods) with Some _ => true | None => false end)
+          ["Put"; "Get"; "Has"; "Remove"; "Clear"; "Len"; "Size"]%string = true /\
+  one_section (lookup "Peek" cache_methods) = None.
 Proof. split; reflexivity. Qed.
 
 (* the shapes that the check rejects: the lock taken after a call of Has (two critical sections), a
